@@ -1,6 +1,7 @@
 import PyYetiVerif.Lemmas.NasFloat
 import PyYetiVerif.Lemmas.NasFloatRat
 import PyYetiVerif.Lemmas.NasFloatLast
+import PyYetiVerif.Lemmas.NasFloatChain
 import PyYetiVerif.Lemmas.NasCards
 import PyYetiVerif.Lemmas.NasCardsTrip
 import PyYetiVerif.Lemmas.NasCardsLarge
@@ -327,6 +328,64 @@ example : (∃ x : Dbl, x.neg = false ∧ 0 < x.num ∧ 0 < x.den ∧ x.den ≤ 
    ⟨⟨true, 5, 10000⟩, rfl, by decide, by decide, by decide⟩,
    ⟨⟨false, 12345674, 10⟩, rfl, by decide, by decide⟩,
    ⟨⟨true, 1234564, 10⟩, rfl, by decide, by decide⟩⟩
+
+/-! ## the formatters as a whole -/
+
+/-- the decidable side conditions of the if-chain dispatch hold for the tables extracted from the
+source: every literal bound as the double the code compares with (sign, exactness of the powers
+of ten and of the carry guards), `RowOK` of every fixed-notation row, the lower bound each row
+inherits from the failed test before it (`≥ 10^-p`: the row never rounds to zero; `≥ 10^-9` and
+`< 10^-1` for the 8-wide mixed rows), the final branches' guards. -/
+theorem tables_format_ok :
+    FormatOK 8 pos8 neg8 posLast8 negLast8 ∧ FormatOK 16 pos16 neg16 posLast16 negLast16 := by
+  decide
+
+/-- **`format_float8` and `format_float16` as a whole** (the if-chains interpreted from the
+generated tables, every branch): for every fraction `x` that is zero or has
+`10^-999 ≤ |x| < 10^999` the result has exactly 8 / 16 characters, is a well-formed field of the
+emitted grammar and is read back by `nas_sscanf` as the real nearest to its decimal.
+[partial: `hsl` — for negative `x` in the mixed branch (`sliverPairs`: at or above the double of
+the literal `5e-7` / `5e-15`) `x` does not round to zero at the branch's precision, i.e.
+`|x| > ½·10^-6` / `½·10^-14`; this excludes one double per width, see `small_branch_neg_partial`.
+The accuracy of each branch is in `fixed_branch_accuracy`, `sci_width_accuracy`,
+`small_branch_pos`, `last_branches`.] -/
+theorem format_float_total_partial (x : Dbl) (hd : 0 < x.den)
+    (hr : x.num = 0 ∨ (x.den ≤ 10 ^ 999 * x.num ∧ x.num < 10 ^ 999 * x.den)) (k : Bool) :
+    ((x.neg = true → ∀ lp ∈ sliverPairs none neg8, mge x lp.1 → x.den < 2 * (x.num * 10 ^ lp.2)) →
+      (formatFloat8 x).length = 8 ∧ ∃ f : Fld, f.wf = true ∧ formatFloat8 x = rjust 8 f.text ∧
+        nasSscanf (formatFloat8 x) k = .flt (toBits f.dec.1 f.dec.2.1 f.dec.2.2)) ∧
+    ((x.neg = true → ∀ lp ∈ sliverPairs none neg16, mge x lp.1 → x.den < 2 * (x.num * 10 ^ lp.2)) →
+      (formatFloat16 x).length = 16 ∧ ∃ f : Fld, f.wf = true ∧ formatFloat16 x = rjust 16 f.text ∧
+        nasSscanf (formatFloat16 x) k = .flt (toBits f.dec.1 f.dec.2.1 f.dec.2.2)) := by
+  obtain ⟨h8, h16⟩ := tables_format_ok
+  obtain ⟨s8, s16, _⟩ := sci_consts_ok
+  constructor
+  · intro hsl
+    have hg := formatFloat_good 8 sci8 pos8 neg8 posLast8 negLast8 s8 (by norm_num) h8 x hd hr hsl
+    have e : formatFloat8 x = (if geZero x then chain 8 sci8 false (lastPos 8 sci8 posLast8) pos8 x
+        else chain 8 sci8 true (lastNeg 8 sci8 negLast8) neg8 x) := rfl
+    rw [← e] at hg
+    exact ⟨hg.length, hg.scan k⟩
+  · intro hsl
+    have hg := formatFloat_good 16 sci16 pos16 neg16 posLast16 negLast16 s16 (by norm_num) h16 x hd hr hsl
+    have e : formatFloat16 x = (if geZero x then chain 16 sci16 false (lastPos 16 sci16 posLast16) pos16 x
+        else chain 16 sci16 true (lastNeg 16 sci16 negLast16) neg16 x) := rfl
+    rw [← e] at hg
+    exact ⟨hg.length, hg.scan k⟩
+
+/-- non-vacuity: the excluded sliver is one literal per width (the double of `5e-7`, precision 6;
+the double of `5e-15`, precision 14); every positive `x` and `x = -1.5` satisfy `hsl`. -/
+example : sliverPairs none neg8 = [(litDbl 1 2000000, 6)] ∧
+    sliverPairs none neg16 = [(litDbl 1 200000000000000, 14)] ∧
+    (∀ lp ∈ sliverPairs none neg8, mge ⟨true, 3, 2⟩ lp.1 →
+      (⟨true, 3, 2⟩ : Dbl).den < 2 * ((⟨true, 3, 2⟩ : Dbl).num * 10 ^ lp.2)) := by
+  refine ⟨by decide, by decide, ?_⟩
+  intro lp hlp _
+  have : sliverPairs none neg8 = [(litDbl 1 2000000, 6)] := by decide
+  rw [this] at hlp
+  simp at hlp
+  subst hlp
+  decide
 
 /-- Below the carry guard `M − ½` (`M = 10^(W-2)`) the integer written by the final negative
 branch, `int(round(x, 0))`, stays below `M`: it has at most `W − 2` digits, so `-ddddddd.` fits. -/
